@@ -34,3 +34,7 @@ CLAIMED["C03"] = dict(
     text="SignDoc's contract: the signature request is for the SHA-256 of exactly the bytes stored as SerializedUefiGolden, with PSS options salt=hash-length/SHA-256 (precondition of the Signer contract), under the key the authority names primary; the embedded certificate and bundle are the authority's for that same key and are set before marshalling; the returned signature is stored unchanged. Together with C01's EndorsementProto contract (verification over the stored bytes with the embedded certificate) these are the sign/verify halves of the property.",
     note="The cryptographic step (PSS verify accepts what PSS sign produced; certificate created by the CA chains to its root) and the key-rotation history are assumed, not proved here; see DESIGN.md §6 C03.",
 )
+CLAIMED["C20"] = dict(
+    text="gcpkms.Signer.Sign is proved to return a signature only when the response CRC32C matches it and both request checksums were confirmed, and only for PSS/SHA-256 options (and to send the digest checksum, a precondition of the assumed KMS contract); destroyableState is proved against the state table; wipeoutKey, Wipeout and getEnabledOrPendingKeyVersion are proved, for every number of versions and every legal pagination (page length a free variable per call), to terminate (decreases on remaining items), to visit every item, to leave no ENABLED/DISABLED version when no RPC fails, and to prefer an ENABLED version; the polling functions return only names whose last observed state is ENABLED (partial correctness).",
+    note="The KMS service is an assumed paging model (/verif/stubs/kms.spec): fixed item sequence per listing, non-empty pages until the end, empty next-page token exactly at the end, every RPC may fail. Termination of the polling loop depends on the service and ctx and is not claimed.",
+)
